@@ -5,30 +5,32 @@ import GoUefi.Lemmas.MultiFault
 `PECOFFBinary.Hash` streams the parts through `io.Copy(h, io.NewSectionReader(multi, 0, size))`
 and returns nil when `io.Copy` fails.  The caller's `io.ReaderAt` is the dependency; the
 environment `env : Impl.RdEnv` answers the k-th `ReadAt` issued on it (how many of the requested
-bytes it delivers, and which error it reports), and the theorems quantify over EVERY environment
-within the `io.ReaderAt` contract (`Impl.RdEnv.Contract`: fewer bytes than requested only together
-with an error), i.e. over every pattern of errors, short counts and early `io.EOF`s.
+bytes it delivers, and which error it reports), and the theorems quantify over EVERY environment,
+i.e. over every pattern of errors, short counts (with an error, with `io.EOF`, or — breaking the
+`io.ReaderAt` contract — with a nil error) and early `io.EOF`s.
 
 Model: `GoUefi/Model/MultiFault.lean` (`multiReadAtE`, `copyAllE`, `hashInputE`; the code before
 the F21 repair as `multiReadAtOld`, `copyAllOld`).  Helper lemmas: `GoUefi/Lemmas/MultiFault.lean`.
 Only the property theorems and their non-vacuity examples live here.
 
-Remark on `Contract`: the model answers a short count with `nil` (outside the contract) with an
-error of its own, so the proofs do not use the hypothesis; it is kept in the statements because the
-model is faithful to multireader.go only for readers inside the contract.
+Remark on `Impl.RdEnv.Contract` (fewer bytes than requested only together with an error): earlier
+versions of these statements carried it as a hypothesis, because before the F25 repair
+`multi.ReadAt` restarted a part at offset 0 after a short count with a nil error (a wrong digest,
+reproduced by the C15 check) while the model answered with an error.  The repaired code reports
+`io.ErrUnexpectedEOF` there, the model is faithful for every reader, and the hypothesis is gone.
 -/
 namespace GoUefi.C15
 open GoUefi GoUefi.Impl
 
 set_option linter.unusedVariables false in
-/-- Whatever the caller's reader does within the `io.ReaderAt` contract (errors, short counts with
-    any error, early `io.EOF`, at any read), if `Hash` returns a digest at all it is the digest of
-    the complete, unaltered stream. -/
-theorem C15_hash_no_wrong_digest (env : Impl.RdEnv) (hc : env.Contract) (parts : List Bytes)
+/-- Whatever the caller's reader does (errors, short counts with any error or with none, early
+    `io.EOF`, at any read), if `Hash` returns a digest at all it is the digest of the complete,
+    unaltered stream. -/
+theorem C15_hash_no_wrong_digest (env : Impl.RdEnv) (parts : List Bytes)
     (chunk : Nat) (hpos : 0 < chunk) (out : Bytes)
     (h : Impl.hashInputE env parts chunk = some out) : out = (Impl.multiParts parts).flatten := by
   rw [Impl.hashInputE_eq_some_iff] at h
-  have h2 := Impl.copyAllE_ok env hc (Impl.multiParts parts) chunk hpos
+  have h2 := Impl.copyAllE_ok' env (Impl.multiParts parts) chunk hpos
     ((Impl.multiParts parts).flatten.length + 1) 0 0 (by omega)
     (by rw [h])
   rw [h, List.drop_zero] at h2
@@ -36,19 +38,19 @@ theorem C15_hash_no_wrong_digest (env : Impl.RdEnv) (hc : env.Contract) (parts :
 
 /-- One positional read: if `multi.ReadAt` reports no error, it delivered exactly the requested
     window of the concatenation. -/
-theorem C15_readAt_ok_is_exact (env : Impl.RdEnv) (hc : env.Contract) (ps : List Bytes)
+theorem C15_readAt_ok_is_exact (env : Impl.RdEnv) (ps : List Bytes)
     (off len k : Nat) (h : off + len ≤ ps.flatten.length)
     (he : (Impl.multiReadAtE env ps off len k).2.1 = .none) :
     (Impl.multiReadAtE env ps off len k).1 = (ps.flatten.drop off).take len :=
-  Impl.multiReadAtE_ok env hc ps off len k h he
+  Impl.multiReadAtE_ok' env ps off len k h he
 
 /-- `io.Copy` from any offset, any amount of fuel that suffices: nil means that everything from
     `off` on was written, unaltered. -/
-theorem C15_copy_ok_is_complete (env : Impl.RdEnv) (hc : env.Contract) (ps : List Bytes)
+theorem C15_copy_ok_is_complete (env : Impl.RdEnv) (ps : List Bytes)
     (chunk : Nat) (hpos : 0 < chunk) (fuel off k : Nat) (hf : ps.flatten.length - off + 1 ≤ fuel)
     (he : (Impl.copyAllE env ps chunk fuel off k).2 = .none) :
     (Impl.copyAllE env ps chunk fuel off k).1 = ps.flatten.drop off :=
-  Impl.copyAllE_ok env hc ps chunk hpos fuel off k hf he
+  Impl.copyAllE_ok' env ps chunk hpos fuel off k (by omega) he
 
 /-- A first read that comes back short — whatever it was asked for, whatever error (or none) it
     reports, whatever the reader does afterwards — makes `Hash` return nothing. -/
@@ -64,17 +66,19 @@ theorem C15_first_read_short (env : Impl.RdEnv) (parts : List Bytes) (chunk : Na
   | p :: rest, _, hmem =>
     exact Impl.copyAllE_first_short env p rest (hmem p (List.mem_cons_self ..)) chunk hpos _ 0 h0
 
-/-- A short read makes `Hash` return nothing: the very first read fails in one of the four ways
+/-- A short read makes `Hash` return nothing: the very first read fails in one of the six ways
     (`kind` 0: error without data; 1: one byte short with `io.ErrUnexpectedEOF`; 2: one byte short
-    with `io.EOF`; ≥ 3: nothing with `io.EOF`), the reader is healthy otherwise. -/
+    with `io.EOF`; 3: nothing with `io.EOF`; 4: one byte short with a nil error; ≥ 5: nothing with a
+    nil error), the reader is healthy otherwise. -/
 theorem C15_short_read_is_failure (kind : Nat) (parts : List Bytes) (chunk : Nat)
     (hpos : 0 < chunk) (hne : Impl.multiParts parts ≠ []) :
     Impl.hashInputE (Impl.envFault 0 kind) parts chunk = none :=
   C15_first_read_short _ parts chunk hpos hne (Impl.envFault_short 0 kind)
 
-/-- The fault-injecting readers are inside the `io.ReaderAt` contract. -/
-theorem C15_envFault_contract (j kind : Nat) : (Impl.envFault j kind).Contract :=
-  Impl.envFault_contract j kind
+/-- The fault-injecting readers of kinds 0–3 are inside the `io.ReaderAt` contract (4 and 5 are
+    deliberately outside). -/
+theorem C15_envFault_contract (j kind : Nat) (hk : kind ≤ 3) : (Impl.envFault j kind).Contract :=
+  Impl.envFault_contract j kind hk
 
 /-- The fault at ANY read: either the faulty read was issued and `Hash` fails, or it was never
     issued and the result is the complete stream.  Never a digest of anything else. -/
@@ -85,7 +89,7 @@ theorem C15_fault_any_position (parts : List Bytes) (chunk : Nat) (hpos : 0 < ch
   rcases Impl.hashInputE_none_or_some (Impl.envFault j kind) parts chunk with h | ⟨out, h⟩
   · exact Or.inl h
   · right
-    rw [h, C15_hash_no_wrong_digest _ (C15_envFault_contract j kind) parts chunk hpos out h]
+    rw [h, C15_hash_no_wrong_digest _ parts chunk hpos out h]
 
 /-! ### non-vacuity: concrete readers and streams -/
 
@@ -95,7 +99,7 @@ example : Impl.hashInputE Impl.envOk [[1, 2, 3, 4, 5], [], [6]] 3 = some [1, 2, 
   decide +kernel
 /-- hypotheses of `C15_short_read_is_failure` met -/
 example : Impl.multiParts [[1, 2, 3, 4, 5], [], [6]] ≠ [] := by decide +kernel
-example : (List.range 5).all (fun kind =>
+example : (List.range 7).all (fun kind =>
     Impl.hashInputE (Impl.envFault 0 kind) [[1, 2, 3, 4, 5], [], [6]] 3 == none) = true := by
   decide +kernel
 /-- a reader whose every read is one byte short and reports nothing at all is OUTSIDE the contract,
@@ -112,10 +116,10 @@ example : Impl.copyAllE (Impl.envFault 1 2) [[1, 2, 3, 4, 5], [6]] 3 7 0 0 =
 example : Impl.hashInputE (Impl.envFault 1 2) [[1, 2, 3, 4, 5], [6]] 3 = none := by decide +kernel
 /-- every kind of fault at every read that is issued (0 … 2): no digest; at a read that is never
     issued (3 …): the complete stream — both alternatives of `C15_fault_any_position` occur -/
-example : (List.range 5).all (fun kind => (List.range 3).all fun j =>
+example : (List.range 7).all (fun kind => (List.range 3).all fun j =>
     Impl.hashInputE (Impl.envFault j kind) [[1, 2, 3, 4, 5], [6]] 3 == none) = true := by
   decide +kernel
-example : (List.range 5).all (fun kind => (List.range 3).all fun j =>
+example : (List.range 7).all (fun kind => (List.range 3).all fun j =>
     Impl.hashInputE (Impl.envFault (3 + j) kind) [[1, 2, 3, 4, 5], [6]] 3 ==
       some [1, 2, 3, 4, 5, 6]) = true := by decide +kernel
 
